@@ -406,7 +406,11 @@ impl BitVec<Vec<usize>> {
         self.len -= 1;
         let word_index = self.len / BITS;
         let bit_index = self.len % BITS;
-        Some((self.bits[word_index] >> bit_index) & 1 != 0)
+        let bit = (self.bits[word_index] >> bit_index) & 1 != 0;
+        // Clear the bit, so that no stale bits are left beyond the length:
+        // rank/select structures count the bits of the last word as they are
+        self.bits[word_index] &= !(1 << bit_index);
+        Some(bit)
     }
 
     pub fn resize(&mut self, new_len: usize, value: bool) {
@@ -418,6 +422,15 @@ impl BitVec<Vec<usize>> {
             for i in self.len..new_len {
                 unsafe {
                     self.set_unchecked(i, value);
+                }
+            }
+        } else {
+            // Clear the discarded bits, so that no stale bits are left beyond
+            // the length: rank/select structures count the bits of the last
+            // word as they are
+            for i in new_len..self.len {
+                unsafe {
+                    self.set_unchecked(i, false);
                 }
             }
         }
